@@ -61,7 +61,7 @@ mod absolute_to_relative_time {
         let deadline = Duration::deserialize(deserializer)?;
         #[cfg(tarpc_verif)]
         return Ok(crate::verif_hooks::now() + deadline);
-        #[cfg(not(tarpc_verif))]
+        #[cfg_attr(tarpc_verif, allow(unreachable_code))]
         Ok(Instant::now() + deadline)
     }
 
@@ -92,10 +92,10 @@ mod absolute_to_relative_time {
 
 assert_impl_all!(Context: Send, Sync);
 
+#[cfg_attr(tarpc_verif, allow(unreachable_code))]
 fn ten_seconds_from_now() -> Instant {
     #[cfg(tarpc_verif)]
     return crate::verif_hooks::now() + Duration::from_secs(10);
-    #[cfg(not(tarpc_verif))]
     Instant::now() + Duration::from_secs(10)
 }
 
